@@ -3,7 +3,6 @@
 package bag
 
 import (
-	"github.com/ohler55/ojg/sen"
 	"github.com/ohler55/slip"
 	"github.com/ohler55/slip/pkg/flavors"
 )
@@ -47,12 +46,12 @@ func (f *Make) Call(s *slip.Scope, args slip.List, depth int) (result slip.Objec
 
 	switch ta := args[0].(type) {
 	case slip.Octets:
-		self.Any = sen.MustParse([]byte(ta))
+		self.Any = mustParseSEN([]byte(ta))
 		if options.Converter != nil {
 			self.Any = options.Converter.Convert(self.Any)
 		}
 	case slip.String:
-		self.Any = sen.MustParse([]byte(ta))
+		self.Any = mustParseSEN([]byte(ta))
 		if options.Converter != nil {
 			self.Any = options.Converter.Convert(self.Any)
 		}
